@@ -529,7 +529,7 @@ P2_B = [
     "a long line that goes on and on and on until it is well past the eighty character limit of md013", "http://bare.url", "<b>", "&amp; \\*", "# h.", "Title\n-----",
 ]
 P2_SEP = ["\n", "\n\n"]
-P2_HOSTS = [("", ""), ("> ", "> "), ("- ", "  ")]
+P2_HOSTS = [("", ""), ("> ", "> "), ("- ", "  "), ("   > ", "   > ", ">  ")]  # 4th: quote whose B line has another prefix width
 
 
 class P2Universe(Universe):
@@ -550,8 +550,21 @@ class P2Universe(Universe):
         b = P2_B[rank % len(P2_B)]
         a = P2_A[rank // len(P2_B)]
         body = a + sep + b + "\n"
-        out = wrap(body, *h) if h[0] else body
+        if len(h) == 3:
+            n_b = b.count("\n") + 1
+            lines = body[:-1].split("\n")
+            out = "\n".join(((h[2] if i >= len(lines) - n_b else h[0]) + l) if l else ">" for i, l in enumerate(lines)) + "\n"
+        else:
+            out = wrap(body, *h) if h[0] else body
         return out + "\n[b c]: /u\n"
+
+
+# ---------------------------------------------------------------------------- several line-level features on one line
+R2_PRE = ["", "\t", "# ", "- ", "> ", "    "]
+R2_MID = ["a", "a\tb", "word " * 17 + "end", "*e*"]
+R2_END = ["", " ", "  ", "   ", "\t", " \\"]
+R3_BODIES = ["a", "a   ", "b  ", "c\td", "===", "---", "# h", "- x", ""]
+K7_FRAGS = ["`", "``", " ", "a"]
 
 
 _pairs = [a + b for a in "quo" for b in "quo"]
@@ -576,6 +589,9 @@ def _build():
         "H4": lambda: LinesUniverse("H4", [""], H4_LINES, 4, newline_variants=False, min_lines=2),
         "M5": M5Universe,
         "P2": P2Universe,
+        "R3": lambda: LinesUniverse("R3", ["", "> "], R3_BODIES, 3, newline_variants=True, min_lines=3),
+        "K7": lambda: InlineUniverse("K7", K7_FRAGS, 7, [I4_HOSTS[0]]),
+        "R2": lambda: LinesUniverse("R2", R2_PRE, [m + e for m in R2_MID for e in R2_END], 2),
         "L1": L1Universe,
     }
 
@@ -586,7 +602,7 @@ def get(name):
     return _REGISTRY[name]
 
 
-ALL = ["B2", "B3", "B4", "I4", "I6", "N1", "W1", "S2", "S3", "U1", "X2", "H4", "M5", "L1", "P2"]
+ALL = ["B2", "B3", "B4", "I4", "I6", "N1", "W1", "S2", "S3", "U1", "X2", "H4", "M5", "L1", "P2", "R2", "R3", "K7"]
 
 if __name__ == "__main__":
     tot = 0
